@@ -152,7 +152,8 @@ func canaryOK(b []byte) bool {
 func impl(c core.Case) []string {
 	var f *codecFns
 	led := &ledger{}
-	step := implStep(&f, led)
+	var hdrCodec string
+	step := implStep(&f, &hdrCodec, led)
 	return core.RunOps(c,
 		func(hdr []string) string {
 			if len(hdr) != 1 {
@@ -162,6 +163,7 @@ func impl(c core.Case) []string {
 			if f == nil {
 				return "bad-op"
 			}
+			hdrCodec = hdr[0]
 			return "ok"
 		},
 		func(t []string) string {
@@ -175,10 +177,11 @@ func impl(c core.Case) []string {
 		})
 }
 
-func implStep(fp **codecFns, led *ledger) func(t []string) string {
+func implStep(fp **codecFns, kp *string, led *ledger) func(t []string) string {
 	return (
 		func(t []string) string {
 			f := *fp
+			hdrCodec := *kp
 			if len(t) < 2 {
 				return "bad-op"
 			}
@@ -201,6 +204,32 @@ func implStep(fp **codecFns, led *ledger) func(t []string) string {
 					return "form-mismatch" // XxxFormatToString[string] and [[]byte] disagree
 				}
 				out = hx([]byte(o))
+			case t[0] == "formatdig" && len(t) == 2:
+				// huge input: the output is compared with the reference formatter here (the case
+				// lines carry only its length and digest)
+				o := f.format(in)
+				if want := refFormat(hdrCodec, in); !bytes.Equal(o, want) {
+					at := 0
+					for at < len(o) && at < len(want) && o[at] == want[at] {
+						at++
+					}
+					lo, hi := at-12, at+18
+					if lo < 0 {
+						lo = 0
+					}
+					clip := func(b []byte) []byte {
+						if hi > len(b) {
+							return b[lo:]
+						}
+						return b[lo:hi]
+					}
+					return fmt.Sprintf("ref-mismatch at=%d got=%q want=%q", at, clip(o), clip(want))
+				}
+				h := uint64(fnvBasis)
+				for _, c := range o {
+					h = mix(h, uint64(c))
+				}
+				out = fmt.Sprintf("%d %d", len(o), h)
 			case t[0] == "parse" && len(t) == 3:
 				n, err := strconv.Atoi(t[2])
 				if err != nil || n < 0 {
@@ -460,7 +489,13 @@ func check(c core.Case, out []string) *core.Failure {
 			continue
 		}
 		fail := func(key, format string, a ...any) *core.Failure {
-			return &core.Failure{Key: k + "-" + key, Desc: fmt.Sprintf("op %d %q -> %q: ", i, c.Lines[i], out[i]) + fmt.Sprintf(format, a...)}
+			clip := func(x string) string {
+				if len(x) > 160 {
+					return x[:160] + fmt.Sprintf("… (%d chars)", len(x))
+				}
+				return x
+			}
+			return &core.Failure{Key: k + "-" + key, Desc: fmt.Sprintf("op %d %q -> %q: ", i, clip(c.Lines[i]), clip(out[i])) + fmt.Sprintf(format, a...)}
 		}
 		if out[i] == "input-modified" {
 			return fail("input-modified", "the call wrote into its input")
@@ -473,6 +508,9 @@ func check(c core.Case, out []string) *core.Failure {
 		}
 		if strings.HasPrefix(out[i], "inplace-differs") {
 			return fail("inplace-differs", "parsing with dst and src in one array (dst starting %s bytes before src) differs from parsing into a fresh buffer: fresh = %s", t[2], strings.TrimPrefix(out[i], "inplace-differs "))
+		}
+		if strings.HasPrefix(out[i], "ref-mismatch") {
+			return fail("format-ref", "Format of a %d-byte input differs from the documented format: %s", len(in), strings.TrimPrefix(out[i], "ref-mismatch "))
 		}
 		if out[i] == "form-mismatch" {
 			return fail("form-mismatch", "the []byte and the string instantiation of the generic function return different results")
